@@ -13,6 +13,7 @@ import (
 	"runtime/debug"
 	"sort"
 	"strings"
+	"time"
 )
 
 // Violation is one observed refutation of a property.
@@ -43,6 +44,7 @@ type Result struct {
 	Inconcl     []string                   `json:"inconclusive"`
 	Notes       map[string]string          `json:"notes"`
 	Groups      map[string]int64           `json:"groups"`
+	GroupSecs   map[string]float64         `json:"group_secs"`
 	Exhaustive  map[string]bool            `json:"exhaustive"`
 	Extra       map[string]json.RawMessage `json:"extra,omitempty"`
 }
@@ -63,8 +65,11 @@ type Ctx struct {
 	sets     map[string]map[string]struct{}
 	violSeen map[string]int
 	curCase  string
+	curF     *os.File
 	sampleN  map[string]int
 }
+
+var slowDebug = os.Getenv("VERIF_DEBUG_SLOW") != ""
 
 const maxViolPerClass = 3
 const maxViolations = 60
@@ -79,6 +84,7 @@ func NewCtx(prop, tier string, seed uint64, shard, nshards int) *Ctx {
 	c.res.Sets = map[string][]string{}
 	c.res.Notes = map[string]string{}
 	c.res.Groups = map[string]int64{}
+	c.res.GroupSecs = map[string]float64{}
 	c.res.Exhaustive = map[string]bool{}
 	c.distinct = map[uint64]struct{}{}
 	c.sets = map[string]map[string]struct{}{}
@@ -185,6 +191,8 @@ func (c *Ctx) Violations() int64 { return c.res.ViolCount }
 // A panic inside fn is recorded as a violation of class "panic:<group>".
 func (c *Ctx) Each(group string, n int64, fn func(i int64, r *Rand)) {
 	c.res.Groups[group] += 0
+	t0 := time.Now()
+	defer func() { c.res.GroupSecs[group] += time.Since(t0).Seconds() }()
 	for i := int64(0); i < n; i++ {
 		if int(i%int64(c.NShards)) != c.Shard {
 			continue
@@ -201,6 +209,8 @@ func (c *Ctx) Each(group string, n int64, fn func(i int64, r *Rand)) {
 // the per-case cost is tiny and the index arithmetic should stay cheap).
 func (c *Ctx) EachBlock(group string, n int64, blk int64, fn func(lo, hi int64)) {
 	nb := (n + blk - 1) / blk
+	t0 := time.Now()
+	defer func() { c.res.GroupSecs[group] += time.Since(t0).Seconds() }()
 	for b := int64(0); b < nb; b++ {
 		if int(b%int64(c.NShards)) != c.Shard {
 			continue
@@ -227,24 +237,53 @@ func (c *Ctx) runCase(group, id string, i int64, fn func(i int64, r *Rand)) {
 	c.res.Evaluations++
 	c.res.Groups[group]++
 	if c.CurFile != "" {
-		os.WriteFile(c.CurFile, []byte(id+"\n"), 0o644)
+		c.writeCur(nil)
 	}
 	r := NewRand(c.Seed, c.Prop, group, uint64(i))
 	defer c.recoverCase(group, nil)
+	if slowDebug {
+		t0 := time.Now()
+		defer func() {
+			if d := time.Since(t0); d > 200*time.Millisecond {
+				fmt.Fprintf(os.Stderr, "SLOW-CASE %s %v\n", id, d)
+			}
+		}()
+	}
 	fn(i, r)
 }
 
-// CurPayload appends details of the running case to the current-case file so the
+// writeCur records the running case (and optionally its input) in the current-case file with one
+// positioned write into a file that stays open: no create/truncate per case. The record ends with a
+// marker line; whatever follows the marker is stale data of an earlier, longer record.
+func (c *Ctx) writeCur(payload []byte) {
+	if c.curF == nil {
+		f, err := os.OpenFile(c.CurFile, os.O_CREATE|os.O_RDWR|os.O_TRUNC, 0o644)
+		if err != nil {
+			return
+		}
+		c.curF = f
+	}
+	rec := c.curCase + "\n"
+	if payload != nil {
+		if len(payload) > 4000 {
+			payload = payload[:4000]
+		}
+		rec += fmt.Sprintf("%x\n", payload)
+	}
+	rec += CurEndMarker + "\n"
+	c.curF.WriteAt([]byte(rec), 0)
+}
+
+// CurEndMarker terminates the record in a current-case file.
+const CurEndMarker = "--END-OF-CURRENT-CASE--"
+
+// CurPayload adds details of the running case to the current-case file so the
 // parent can build a witness if the worker dies with a fatal error.
 func (c *Ctx) CurPayload(b []byte) {
 	if c.CurFile == "" {
 		return
 	}
-	f, err := os.OpenFile(c.CurFile, os.O_APPEND|os.O_WRONLY, 0o644)
-	if err == nil {
-		f.Write([]byte(fmt.Sprintf("%x\n", b)))
-		f.Close()
-	}
+	c.writeCur(b)
 }
 
 func (c *Ctx) recoverCase(group string, input any) {
